@@ -22,6 +22,8 @@ enum Op {
     SpawnInstant(usize, Option<usize>, Option<String>),
     Link(usize, usize),
     Unlink(usize, usize),
+    /// feature `monitors`: `m.monitor(a)` / `m.unmonitor(a)` (`Monitor(m, a, on)`)
+    Monitor(usize, usize, bool),
     PollSpawn(usize),
     DropSpawn(usize),
     Poll(usize),
@@ -55,6 +57,8 @@ impl std::fmt::Display for Op {
             ),
             Op::Link(a, p) => write!(f, "link {a} {p}"),
             Op::Unlink(a, p) => write!(f, "unlink {a} {p}"),
+            Op::Monitor(m, a, true) => write!(f, "monitor {m} {a}"),
+            Op::Monitor(m, a, false) => write!(f, "unmonitor {m} {a}"),
             Op::PollSpawn(a) => write!(f, "pollspawn {a}"),
             Op::DropSpawn(a) => write!(f, "dropspawn {a}"),
             Op::Poll(a) => write!(f, "poll {a}"),
@@ -102,6 +106,8 @@ fn parse_op(line: &str) -> Option<Op> {
         }
         ["link", a, p] => Op::Link(n(a)?, n(p)?),
         ["unlink", a, p] => Op::Unlink(n(a)?, n(p)?),
+        ["monitor", m, a] => Op::Monitor(n(m)?, n(a)?, true),
+        ["unmonitor", m, a] => Op::Monitor(n(m)?, n(a)?, false),
         ["wait", w, a] => Op::Wait(w.parse().ok()?, n(a)?),
         ["pollwait", w] => Op::PollWait(w.parse().ok()?),
         ["call", k, a] => Op::Call(k.parse().ok()?, n(a)?),
@@ -145,6 +151,9 @@ impl Run {
                 *a == n && sup.is_none_or(|p| p < n && self.w.me(p).is_some())
             }
             Op::Unlink(a, p) => *a < n && *p < n && a != p && self.w.me(*p).is_some(),
+            Op::Monitor(m, a, _) => {
+                self.w.monitors_enabled() && *a < n && *m < n && a != m && self.w.me(*m).is_some() && self.w.me(*a).is_some()
+            }
             // a link that would close a supervision cycle is never issued (see `would_cycle`)
             Op::Link(a, p) => *a < n && *p < n && a != p && self.w.me(*p).is_some() && !self.w.would_cycle(*a, *p),
             Op::Wait(_, a) | Op::Call(_, a) => *a < n,
@@ -192,6 +201,10 @@ impl Run {
             Op::Unlink(a, p) => {
                 self.stats.bump(&format!("op.unlink@{}", open_of(&self.w, *a)));
                 self.w.unlink(*a, *p);
+            }
+            Op::Monitor(m, a, on) => {
+                self.stats.bump(&format!("op.{}@{}", if *on { "monitor" } else { "unmonitor" }, open_of(&self.w, *a)));
+                self.w.monitor(*m, *a, *on);
             }
             Op::Wait(w, a) => {
                 self.stats.bump("op.wait");
@@ -283,6 +296,7 @@ impl Run {
                     self.stats.bump(&format!("obs.emit.Terminated.{st}.{class}"))
                 }
                 ["emit", _, kind, ..] => self.stats.bump(&format!("obs.emit.{kind}")),
+                ["monemit", _, kind, ..] => self.stats.bump(&format!("obs.monemit.{kind}")),
                 ["cancelled", _, cb] => self.stats.bump(&format!("obs.cancelled.{cb}")),
                 ["ret", r] if matches!(op, Op::Spawn(..) | Op::PollSpawn(_) | Op::SpawnInstant(..)) => {
                     let r = if r.starts_with("Err(startup:") { "Err(startup)" } else { r };
@@ -480,6 +494,12 @@ impl Run {
                         cand.push(((wild + 1) * k / 3, Op::Link(a, p)));
                         let q = *rng.pick(&others);
                         cand.push(((wild + 1) * k / 4, Op::Unlink(a, q)));
+                        if self.w.monitors_enabled() {
+                            let m = *rng.pick(&others);
+                            cand.push((3 * k / 2, Op::Monitor(m, a, true)));
+                            let m2 = *rng.pick(&others);
+                            cand.push((k / 3, Op::Monitor(m2, a, false)));
+                        }
                     }
                     cand.push((k / 2, Op::Wait(100 + self.fresh(), a)));
                 }
@@ -773,6 +793,108 @@ impl Run {
         id
     }
 
+    /// Monitor sweep (feature `monitors`): actor 1 (child of 0 or unsupervised) is monitored by a subset of
+    /// {2, 3, its own supervisor 0}, one monitor possibly dead or un-monitored again, and then ends in
+    /// every way: every monitor registered at that instant gets exactly one copy, without state.
+    async fn monitor_sweep(&mut self, id0: u64) -> u64 {
+        let ok = || Seg { fx: vec![], term: Term::Ok };
+        let mut id = id0;
+        for supervised in [true, false] {
+            for mask in 0u32..8 {
+                for variant in ["plain", "dead3", "unmon2", "late"] {
+                    for exit in ["stop", "kill", "err", "abort", "drain", "poststart-panic", "poststop-err"] {
+                        self.exec(Op::Case(id)).await;
+                        id += 1;
+                        self.stats.bump("monitorsweep.cases");
+                        let mut pre: Vec<Op> = vec![
+                            Op::Spawn(0, None, None),
+                            Op::Resume(0, ok()),
+                            Op::PollSpawn(0),
+                            Op::Spawn(1, if supervised { Some(0) } else { None }, None),
+                            Op::Spawn(2, None, None),
+                            Op::Resume(2, ok()),
+                            Op::PollSpawn(2),
+                            Op::Spawn(3, None, None),
+                            Op::Resume(3, ok()),
+                            Op::PollSpawn(3),
+                        ];
+                        if variant != "late" {
+                            if mask & 1 != 0 {
+                                pre.push(Op::Monitor(2, 1, true));
+                            }
+                            if mask & 2 != 0 {
+                                pre.push(Op::Monitor(3, 1, true));
+                            }
+                            if mask & 4 != 0 {
+                                pre.push(Op::Monitor(0, 1, true));
+                            }
+                        }
+                        pre.extend([Op::Resume(1, ok()), Op::PollSpawn(1), Op::Poll(1)]);
+                        if exit != "poststart-panic" {
+                            pre.extend([Op::Resume(1, ok()), Op::Poll(1)]);
+                        }
+                        if variant == "late" {
+                            if mask & 1 != 0 {
+                                pre.push(Op::Monitor(2, 1, true));
+                            }
+                            if mask & 2 != 0 {
+                                pre.push(Op::Monitor(3, 1, true));
+                            }
+                            if mask & 4 != 0 {
+                                pre.push(Op::Monitor(0, 1, true));
+                            }
+                        }
+                        match variant {
+                            "dead3" => pre.extend([Op::Kill(3), Op::Poll(3)]),
+                            "unmon2" => pre.push(Op::Monitor(2, 1, false)),
+                            _ => {}
+                        }
+                        for op in pre {
+                            self.exec(op).await;
+                        }
+                        match exit {
+                            "stop" => {
+                                self.exec(Op::Stop(1, Some("r1".into()))).await;
+                                self.exec(Op::Poll(1)).await;
+                                self.exec(Op::Resume(1, ok())).await;
+                                self.exec(Op::Poll(1)).await;
+                            }
+                            "kill" => {
+                                self.exec(Op::Kill(1)).await;
+                                self.exec(Op::Poll(1)).await;
+                            }
+                            "err" => {
+                                self.exec(Op::Send(1, 100)).await;
+                                self.exec(Op::Poll(1)).await;
+                                self.exec(Op::Resume(1, Seg { fx: vec![], term: Term::Err(7) })).await;
+                                self.exec(Op::Poll(1)).await;
+                            }
+                            "abort" => self.exec(Op::Abort(1)).await,
+                            "drain" => {
+                                self.exec(Op::Drain(1)).await;
+                                self.exec(Op::Poll(1)).await;
+                                self.exec(Op::Resume(1, ok())).await;
+                                self.exec(Op::Poll(1)).await;
+                            }
+                            "poststart-panic" => {
+                                self.exec(Op::Resume(1, Seg { fx: vec![], term: Term::Panic(8) })).await;
+                                self.exec(Op::Poll(1)).await;
+                            }
+                            _ => {
+                                self.exec(Op::Stop(1, None)).await;
+                                self.exec(Op::Poll(1)).await;
+                                self.exec(Op::Resume(1, Seg { fx: vec![], term: Term::Err(9) })).await;
+                                self.exec(Op::Poll(1)).await;
+                            }
+                        }
+                        self.finish_case().await;
+                    }
+                }
+            }
+        }
+        id
+    }
+
     /// Re-link sweep: a supervised actor (child of 0, with its own child 2, another possible
     /// supervisor 3) is re-linked / unlinked through the public API in every phase, then runs on,
     /// fails, or is killed: every later event must go to the supervisor of that instant.
@@ -911,6 +1033,9 @@ fn main() {
             id = run.spawn_sweep(id).await;
             id = run.instant_sweep(id).await;
             id = run.relink_sweep(id).await;
+            if run.w.monitors_enabled() {
+                id = run.monitor_sweep(id).await;
+            }
         }
         let _ = id;
         // 3. structured random cases
